@@ -4,6 +4,6 @@
 cd /verif
 tier=${1:-quick}; jobs=${2:-14}
 for p in $(grep -v '^#' run/ready.txt | sort -u); do
-  ZV_JOBS=$jobs python3 run/check.py $p --tier $tier > logs/final_${tier}_$p.log 2>&1
-  echo "$(date +%H:%M) $p rc=$? $(grep obligations= logs/final_${tier}_$p.log | tail -n 1 | cut -c1-140)"
+  ZV_JOBS=$jobs python3 run/check.py $p --tier $tier > logs/final_${tier}_$p.log 2>&1; rc=$?
+  echo "$(date +%H:%M) $p rc=$rc $(grep obligations= logs/final_${tier}_$p.log | tail -n 1 | cut -c1-140)"
 done
